@@ -36,4 +36,4 @@ class Prop:
         self.explanation = explanation
         self.workers = workers or {"quick": 8, "thorough": 16}
         self.extra_coverage = extra_coverage  # callable(tier, agg) -> dict merged into coverage
-        self.shrink_s = shrink_s or {"quick": 20.0, "thorough": 120.0}
+        self.shrink_s = shrink_s or {"quick": 10.0, "thorough": 60.0}
